@@ -1,5 +1,5 @@
 #!/bin/bash
-# tools/seeded_intake.sh <source worktree of the sub-agent> <Cxx> <id> [FULL]
+# tools/seeded_confirm.sh <source worktree of the sub-agent> <Cxx> <id> [FULL]   (phase A: independent confirmation in a scratch worktree)
 # Confirms a seeded change independently in a fresh scratch worktree (demo passes without / fails with the change, existing tests pass with it),
 # stores it under /verif/seeded/<id>/, then runs the property's check against /repo with the patch applied and undoes it straight afterwards.
 set -u
@@ -16,9 +16,14 @@ RC1=$(run_demo_local /tmp/demo1_$ID.log)
 files=$(grep '^+++ b/' $DEST/patch.diff | sed 's#+++ b/##')
 tests=""
 for f in $files; do case $f in
-  *value_iteration.py|*core/solver.py|*batch_processing.py|*core/problem.py|*spaces.py|*logging.py) tests="$tests tests/test_solvers tests/test_utils tests/test_problems/test_forest.py";;
+  *semi_async_value_iteration.py) tests="$tests tests/test_solvers/test_semi_async_value_iteration.py";;
+  *periodic_value_iteration.py) tests="$tests tests/test_solvers/test_periodic_value_iteration.py tests/test_utils/test_checkpointing.py";;
+  *relative_value_iteration.py) tests="$tests tests/test_solvers/test_relative_value_iteration.py";;
+  *policy_iteration.py) tests="$tests tests/test_solvers/test_policy_iteration.py";;
+  *solvers/value_iteration.py|*core/solver.py) tests="$tests tests/test_solvers/test_value_iteration.py tests/test_solvers/test_relative_value_iteration.py tests/test_solvers/test_policy_iteration.py tests/test_utils/test_checkpointing.py";;
+  *batch_processing.py|*spaces.py|*logging.py) tests="$tests tests/test_utils tests/test_solvers/test_value_iteration.py tests/test_problems/test_forest.py";;
+  *core/problem.py) tests="$tests tests/test_problems tests/test_solvers/test_value_iteration.py";;
   *checkpointing.py) tests="$tests tests/test_utils/test_checkpointing.py tests/test_solvers/test_value_iteration.py";;
-  *policy_iteration.py) tests="$tests tests/test_solvers/test_policy_iteration.py tests/test_utils/test_checkpointing.py";;
   *forest.py) tests="$tests tests/test_problems/test_forest.py tests/test_solvers/test_value_iteration.py";;
   *de_moor*) tests="$tests tests/test_problems/test_perishable_inventory/test_de_moor_single_product.py tests/test_solvers/test_value_iteration.py";;
   *hendrix*) tests="$tests tests/test_problems/test_perishable_inventory/test_hendrix_two_product.py tests/test_solvers/test_relative_value_iteration.py";;
@@ -29,20 +34,13 @@ tests=$(echo $tests | tr ' ' '\n' | sort -u | tr '\n' ' ')
 (cd $SW && JAX_PLATFORMS=cpu PYTHONPATH=$SW/src timeout 3000 /venv/bin/python -m pytest -q -p no:cacheprovider --timeout=900 --no-cov --deselect "tests/test_solvers/test_periodic_value_iteration.py::test_matches_reference_policy[mirjalili/m3/exp1]" $tests > /tmp/tests_$ID.log 2>&1); TRC=$?
 TSUM=$(tail -1 /tmp/tests_$ID.log)
 git -C /repo worktree remove --force $SW
-# the property's check against /repo itself with the change applied, undone straight afterwards
-git -C /repo apply $DEST/patch.diff && { OUT=$(cd /verif && VERIF_OUT_DIR=/tmp/seeded_chk_$ID bin/check $PID 2>&1); CRC=$?; git -C /repo checkout -- . ; } || { OUT="patch did not apply to /repo"; CRC=-1; }
-OBL=$(for f in $(echo "$OUT" | grep -o 'replay=[^ ]*' | cut -d= -f2 | head -6); do python3 -c "import json; r=json.load(open('$f')); print(r.get('obligation'), '|', r.get('verdict'))"; done)
-rm -rf /tmp/seeded_chk_$ID
-python3 - "$ID" "$PID" "$RC0" "$RC1" "$TRC" "$TSUM" "$CRC" "$tests" <<PY
-import json, sys
-ID, PID, rc0, rc1, trc, tsum, crc, tests = sys.argv[1:9]
-out = """$OUT"""; obl = """$OBL"""
-meta = {"id": ID, "breaks_property": PID, "origin": "written by a sub-agent that saw only the property text and its own scratch worktree (nothing from /verif)",
-        "needs_to_manifest": open("/verif/seeded/%s/NOTE.md" % ID).read()[:1500] if __import__("os").path.exists("/verif/seeded/%s/NOTE.md" % ID) else "",
-        "confirmed_by_me": {"demo_exit_without_change": int(rc0), "demo_exit_with_change": int(rc1), "existing_tests_with_change": {"selection": tests, "pytest_exit": int(trc), "summary": tsum}},
-        "check_against_repo_with_patch_applied": {"command": "git -C /repo apply seeded/%s/patch.diff; bin/check %s; git -C /repo checkout -- ." % (ID, PID), "exit": int(crc),
-               "output_tail": out.strip().splitlines()[-6:], "failed_obligations": [l for l in obl.splitlines() if l.strip()]},
-        "caught": int(crc) == 1}
-json.dump(meta, open("/verif/seeded/%s/meta.json" % ID, "w"), indent=1)
-print(json.dumps({k: meta[k] for k in ("id", "caught")}), "demo", rc0, rc1, "tests", trc, tsum[:80]); print("\n".join(meta["check_against_repo_with_patch_applied"]["failed_obligations"][:4]))
+python3 - "$ID" "$PID" "$RC0" "$RC1" "$TRC" "$TSUM" "$tests" <<PY
+import json, sys, os
+ID, PID, rc0, rc1, trc, tsum, tests = sys.argv[1:8]
+p = "/verif/seeded/%s/meta.json" % ID
+meta = json.load(open(p)) if os.path.exists(p) else {}
+meta.update({"id": ID, "breaks_property": PID, "origin": "written by a sub-agent that saw only the property text and its own scratch worktree (nothing from /verif)",
+        "needs_to_manifest": open("/verif/seeded/%s/NOTE.md" % ID).read()[:1800] if os.path.exists("/verif/seeded/%s/NOTE.md" % ID) else "",
+        "confirmed_by_me": {"demo_exit_without_change": int(rc0), "demo_exit_with_change": int(rc1), "existing_tests_with_change": {"selection": tests, "pytest_exit": int(trc), "summary": tsum}}})
+json.dump(meta, open(p, "w"), indent=1); print(ID, "demo", rc0, rc1, "tests", trc, tsum[:90])
 PY
